@@ -68,8 +68,17 @@ Theorem C13_oracle_sound : forall k,
      (s_extrem x = false -> s_newest x <> None)) /\
   c_left_behind k = 0 /\ (forall b, In b (c_forced_after_removal k) -> b = true) /\
   (forall b, In b (c_forced_ok_has_file k) -> b = true) /\
-  (forall b, In b (c_forced_ok_old_existed k) -> b = true).
+  (forall b, In b (c_forced_ok_old_existed k) -> b = true) /\
+  (forall b, In b (c_regular_in_time k) -> b = true).
 Proof. exact check_C13_spec. Qed.
+
+(* a regular refresh starts only while the last SUCCESSFUL lock write is not older than R; failed attempts
+   do not move that timestamp *)
+Theorem C13_regular_refresh_in_time : forall c s t s', step c s (RStart t) = Some s' -> t - ftime s <= R c.
+Proof. exact regular_refresh_in_time. Qed.
+
+Theorem C13_failed_refresh_keeps_ftime : forall c s t s', step c s (REndFail t) = Some s' -> ftime s' = ftime s.
+Proof. exact failed_refresh_keeps_ftime. Qed.
 
 (* a forced refresh reports success only if the old lock file was there at both existence checks, and then
    the replacement is in place; a lock that vanishes between the checks is a failure *)
@@ -106,3 +115,5 @@ Print Assumptions C13_refresh_never_lockless.
 Print Assumptions C13_oracle_sound.
 Print Assumptions C13_model_samples_fresh.
 Print Assumptions C13_forced_success_has_file.
+Print Assumptions C13_regular_refresh_in_time.
+Print Assumptions C13_failed_refresh_keeps_ftime.
